@@ -325,6 +325,11 @@ static long double g_max_err_units = 0; // largest observed error in units of th
 
 static void check_one(const FDir &d, const std::string &prefix, const std::string &suffix)
 {
+    if (pf::skip_after_hangs())
+    {
+        VF_OK("skipped: the run already recorded repeated hangs");
+        return;
+    }
     std::string fmt;
     std::vector<Arg> args;
     fmt_args(d, fmt, args);
@@ -715,6 +720,7 @@ VF_SUITE(stress, stress_count, stress_run)
 
 extern "C" void vf_setup()
 {
+    pf::setup();
     if (only_suite() && *only_suite())
         return;
     for (const char *c : {"terminates with bounded output, return == characters emitted (every class of double)",
